@@ -4,7 +4,13 @@ use std::io::{BufRead, Write};
 use std::panic::{AssertUnwindSafe, catch_unwind};
 
 mod util;
+mod alloc;
 mod frag;
+mod framing;
+mod pid;
+
+#[global_allocator]
+static GLOBAL: alloc::Counting = alloc::Counting;
 
 fn main() {
     let domain = std::env::args().nth(1).unwrap_or_default();
@@ -12,6 +18,8 @@ fn main() {
     std::panic::set_hook(Box::new(|_| {}));
     let f: fn(&str) -> String = match domain.as_str() {
         "frag" => frag::run_case,
+        "framing" => framing::run_case,
+        "pid" => pid::run_case,
         _ => {
             eprintln!("unknown domain {domain}");
             std::process::exit(2);
